@@ -34,8 +34,11 @@ def alone(data):
     if key not in _ALONE:
         if len(_ALONE) > 400:
             _ALONE.clear()
-        v = S.validate(data)
-        _ALONE[key] = (v.error is None, type(v.error).__name__ if v.error is not None else None, v.pictures)
+        v = S.validate(data, guard=True)  # a mutated member declaring huge pictures is out of scope
+        if v.out_of_scope is not None:
+            _ALONE[key] = (False, "OutOfScope", v.pictures)
+        else:
+            _ALONE[key] = (v.error is None, type(v.error).__name__ if v.error is not None else None, v.pictures)
     return _ALONE[key]
 
 
@@ -105,10 +108,16 @@ def check(real, col):
         if not ok and cls == "UnexpectedEndOfStream":
             facts["outcome"] = "undelimited_member"
             return facts
+        if cls == "OutOfScope":
+            facts["outcome"] = "out_of_scope_member"
+            return facts
     first_bad = next((k for k, (ok, _, _) in enumerate(info) if not ok), None)
     blob = b"".join(d for _, d in real)
     try:
-        v = S.validate(blob)
+        v = S.validate(blob, guard=True)
+        if v.out_of_scope is not None:
+            facts["outcome"] = "out_of_scope_member"
+            return facts
     except Exception as e:
         col.fail(col.crash_bucket(e, "concat"), rec, "validator raised %s on a concatenation of individually judged members" % type(e).__name__)
         return facts
@@ -129,7 +138,7 @@ def check(real, col):
     # prefix / suffix removal on conformant members
     if first_bad is None and len(real) >= 3:
         mid = b"".join(d for _, d in real[1:-1])
-        vm = S.validate(mid)
+        vm = S.validate(mid, guard=True)
         if vm.error is not None:
             col.fail("middle-rejected", rec, "removing a conformant prefix and suffix changed the verdict: %s" % type(vm.error).__name__)
         elif not pictures_equal(vm.pictures, [p for k in range(1, len(real) - 1) for p in info[k][2]]):
